@@ -7,7 +7,7 @@ from harness.props import base
 PROP = {
     "id": "C05",
     "quick_n": 400,
-    "thorough_n": 6000,
+    "thorough_n": 4000,
     "rule": "one program = a history over a pool of up to 6 aggregators of one or two tree specs: "
             "fills over the critical values of the tree (every edge and its +-1,+-2 ulp neighbours, "
             "nan, +-inf; dyadic and non-dyadic configurations such as width 0.1, 1/3, offsets 1e16), "
